@@ -20,7 +20,8 @@ def spec_cfg(cfg):
     c = dict(DEFAULT_CFG)
     c.update(cfg or {})
     return {"pre": c["pre"], "cur": digits(c["currency"]), "password": digits(c["password"]),
-            "tid": [ord(ch) for ch in (c["terminal_id"] or "00000000")], "timeout": c["read_card_timeout"], "max": c["max"]}
+            "tid": [ord(ch) for ch in (c["terminal_id"] or "00000000")], "timeout": c["read_card_timeout"], "max": c["max"],
+            "slow": 500 * (_CAL["v"][0] if "v" in _CAL else 60)}
 
 
 def run_scenarios(binary, scenarios, wd, label, timeout=3000):
